@@ -97,6 +97,8 @@ type env struct {
 	r   *h.Result
 	d   *h.Driver
 	rnd *h.Rand
+
+	sepTotal, sepDistinct, sepImpl int // nonce pairs cn≠sn; with pairwise distinct specification keys; with distinct keys in the real object
 }
 
 func (e *env) nonce(kind int, n int) []byte {
@@ -164,6 +166,23 @@ func (e *env) one(uri string, cn, sn []byte, tag string) {
 		}
 		if !bytes.Equal(vk, side.recv.sign) || !bytes.Equal(dk, side.recv.enc) || !bytes.Equal(div, side.recv.iv) {
 			fail(side.name + ": receiving keys differ from the specification's keys of the peer")
+		}
+	}
+
+	// ---- direction separation for these concrete nonces: the three keys of the two directions differ pairwise
+	if !bytes.Equal(cn, sn) {
+		e.sepTotal++
+		if !bytes.Equal(ck.sign, sk.sign) && !bytes.Equal(ck.enc, sk.enc) && !bytes.Equal(ck.iv, sk.iv) {
+			e.sepDistinct++
+		} else {
+			fail("the client and server keys of distinct nonces coincide (signing/encrypting key or IV)")
+		}
+		if sg, ek, eiv, vk, dk, div, ok := uapolicy.VerifSymmetricKeys(client); ok {
+			if bytes.Equal(sg, vk) || bytes.Equal(ek, dk) || bytes.Equal(eiv, div) {
+				fail("the real algorithm object sends and receives with the same key")
+			} else {
+				e.sepImpl++
+			}
 		}
 	}
 
@@ -319,7 +338,7 @@ func main() {
 		return
 	}
 	defer d.Close()
-	e := &env{o, r, d, h.NewRand(o.Seed)}
+	e := &env{o: o, r: r, d: d, rnd: h.NewRand(o.Seed)}
 	r.Rule = "case = (policy, client nonce, server nonce): uapolicy.Symmetric for both roles; keys (hook) = Lean model of the constructor = specification keys (harness P_SHA and Lean Spec); MAC / ciphertext of the real code = HMAC / AES-CBC with the specification's keys (Lean reference crypto and Go crypto); the peer verifies and decrypts; the sender's own receive side rejects its MAC, garbles its ciphertext, and verifyAndDecrypt rejects a reflected chunk (nonces differ). Nonces: random of the policy length, all-zero, all-ff, counting, lengths 0..100, one-bit difference, equal (separation not expected). Plus generateKeys for arbitrary lengths against the loop model and P_SHA. Distinct by (policy, nonces)."
 	if d != nil {
 		if a := d.Ask("selftest"); a != "ok" {
@@ -342,7 +361,7 @@ func main() {
 		if short(u) == "Basic128Rsa15" {
 			nl = 16
 		}
-		for i := 0; i < o.N(40, 2000); i++ {
+		for i := 0; i < o.N(40, 600); i++ {
 			e.one(u, e.rnd.Bytes(nl), e.rnd.Bytes(nl), "random")
 		}
 		for k := 1; k < 4; k++ {
@@ -360,9 +379,13 @@ func main() {
 		e.one(u, a, b, "one-bit")
 		e.one(u, a, append([]byte{}, a...), "equal")
 	}
-	for i := 0; i < o.N(300, 5000); i++ {
+	for i := 0; i < o.N(300, 2500); i++ {
 		e.genKeys()
 	}
+	r.Notes = append(r.Notes, fmt.Sprintf("direction separation, concrete nonces: %d sampled nonce pairs with clientNonce != serverNonce; %d had pairwise distinct client/server signing key, encrypting key and IV by the specification's derivation; %d had pairwise distinct send/receive keys inside the real EncryptionAlgorithm; every one of them rejected its own reflected MAC, ciphertext and chunk (reflect:* counters)", e.sepTotal, e.sepDistinct, e.sepImpl))
+	r.Distribution["separation:pairs"] = e.sepTotal
+	r.Distribution["separation:distinct-spec-keys"] = e.sepDistinct
+	r.Distribution["separation:distinct-impl-keys"] = e.sepImpl
 	for _, b := range []string{"reflect:mac-rejected", "reflect:ciphertext-garbled", "reflect:chunk-err", "genkeys:zero-length", "nonces:equal", "nonces:one-bit"} {
 		if r.Distribution[b] == 0 {
 			r.Unreached = append(r.Unreached, b)
